@@ -1,5 +1,6 @@
 #!/bin/bash
 # runall.sh [tier] [seed]: every check, 4 at a time; prints one line per check
 tier=${1:-quick}; seed=${2:-0}
-ids=$(python3 -c "import json;print(' '.join(c['property_id'] for c in json.load(open('/verif/MANIFEST.json'))['checks']))")
-printf "%s\n" $ids | VERIF_SEED=$seed xargs -P ${PAR:-4} -I{} sh -c 'cd /verif && s=$(date +%s); VERIF_SEED='$seed' ./check {} --tier '$tier' > /tmp/runall-{}.log 2>&1; rc=$?; echo "{} rc=$rc $(( $(date +%s) - s ))s $(grep -c "^VIOLATION" /tmp/runall-{}.log) violations $(grep -m1 "INFRA" /tmp/runall-{}.log | cut -c1-120)"'
+export ROOT=$(cd "$(dirname "$0")/../.." && pwd)
+ids=$(python3 -c "import json;print(' '.join(c['property_id'] for c in json.load(open('$ROOT/MANIFEST.json'))['checks']))")
+printf "%s\n" $ids | VERIF_SEED=$seed xargs -P ${PAR:-4} -I{} sh -c 'cd $ROOT && s=$(date +%s); VERIF_SEED='$seed' ./check {} --tier '$tier' > /tmp/runall-{}.log 2>&1; rc=$?; echo "{} rc=$rc $(( $(date +%s) - s ))s $(grep -c "^VIOLATION" /tmp/runall-{}.log) violations $(grep -m1 "INFRA" /tmp/runall-{}.log | cut -c1-120)"'
